@@ -102,12 +102,12 @@ def unknown_external(I, st, callee, target, args, ctx):
     st.event("extcall", k, tuple((a.cell, a.path) if isinstance(a, VRef) else None for a in args))
     # whatever the callee can reach through a `&mut` argument is unknown afterwards (a `retain`
     # on the list a decoder has just parsed must not leave the list looking as parsed)
-    for a in args:
-        if isinstance(a, VRef) and a.mut:
-            try:
+    # (the tool's calls into the library itself are the exception: what `AisParser::parse` does to
+    # the parser is decided by the library analysis, C20 clauses (e) and (f))
+    if not (k.startswith("ais:") or k.startswith("ais::")):
+        for a in args:
+            if isinstance(a, VRef) and a.mut:
                 I.write_loc(st, a.cell, a.path, VOpaque("havoc:" + k, None))
-            except Unanalysable:
-                raise
     dest = ctx["term"]["dest"]
     ty = ctx["body"]["locals"][dest["l"]] if not dest["p"] else None
     return [(st, VOpaque("ext:" + k, ty))]
